@@ -11,6 +11,35 @@ pub struct Cfg {
     pub hosts: Vec<(String, Vec<String>, Vec<String>)>,
     pub default_routes: Vec<String>,
     pub default_ws: Vec<String>,
+    /// registration call per default route / per route of every host sub-app, by position
+    /// (0 = with_route, 1 = with_stateless_route, 2 = with_path_aware_route); missing = 0
+    pub kinds: Vec<u8>,
+    /// default routes registered on the App itself (App::with_*route) instead of through with_default_subapp
+    pub direct: bool,
+}
+
+impl Cfg {
+    pub fn kind(&self, i: usize) -> u8 {
+        self.kinds.get(i).copied().unwrap_or(0)
+    }
+}
+
+/// route patterns as `&'static str` (with_path_aware_route wants one); interned so that the enumeration leaks each once
+pub fn leak(r: &str) -> &'static str {
+    use std::sync::{Mutex, OnceLock};
+    static T: OnceLock<Mutex<std::collections::HashMap<String, &'static str>>> = OnceLock::new();
+    let mut t = T.get_or_init(Default::default).lock().unwrap();
+    if let Some(x) = t.get(r) {
+        return x;
+    }
+    let l: &'static str = Box::leak(r.to_string().into_boxed_str());
+    t.insert(r.to_string(), l);
+    l
+}
+
+/// what a path-aware handler answers: its id if it was handed the pattern it was registered under
+pub fn path_aware_answer(id: &str, registered: &str, handed: &str) -> Vec<u8> {
+    if registered == handed { id.as_bytes().to_vec() } else { format!("{} was handed route {:?} instead of {:?}", id, handed, registered).into_bytes() }
 }
 
 /// `*` = any (possibly empty) string, every other char itself (the DP reference of C05)
@@ -60,6 +89,8 @@ pub struct Case {
     pub target: &'static str,
     pub path: &'static str,
     pub ws: bool,
+    /// method, version and spelling of the Host field name (none of which the choice may depend on)
+    pub line: String,
     pub bytes: Vec<u8>,
 }
 
@@ -76,9 +107,13 @@ pub fn cases(with_ws: bool) -> Vec<Case> {
                     if !extra.is_empty() && !(target == "/ab" || target == "/a?q") {
                         continue;
                     }
-                    let mut req = format!("GET {} HTTP/1.1\r\n", target);
+                  for (method, version, hname) in [("GET", "1.1", "Host"), ("POST", "1.1", "host"), ("DELETE", "1.0", "HOST"), ("PUT", "1.1", "hOsT")] {
+                    if method != "GET" && (ws || !extra.is_empty() || !matches!(target, "/a" | "/a/b?x=/b" | "/b/b" | "/")) {
+                        continue;
+                    }
+                    let mut req = format!("{} {} HTTP/{}\r\n", method, target, version);
                     if let Some(h) = host {
-                        req.push_str(&format!("Host: {}\r\n", h));
+                        req.push_str(&format!("{}: {}\r\n", hname, h));
                     }
                     req.push_str(extra);
                     if ws {
@@ -87,7 +122,8 @@ pub fn cases(with_ws: bool) -> Vec<Case> {
                         req.push_str("Connection: close\r\n");
                     }
                     req.push_str("\r\n");
-                    out.push(Case { host, target, path, ws, bytes: req.into_bytes() });
+                    out.push(Case { host, target, path, ws, line: format!("{} HTTP/{} {}", method, version, hname), bytes: req.into_bytes() });
+                  }
                 }
             }
         }
@@ -101,7 +137,7 @@ pub fn judge(s: &mut Stats, runtime: &str, cfg: &Cfg, c: &Case, served: Result<V
     s.transitions += 1;
     let want = reference(cfg, c.host, c.path, c.ws);
     let pre = if runtime.is_empty() { String::new() } else { format!("[{}] ", runtime) };
-    let ctx = |what: String, out: &[u8]| json!({"what": what, "hosts": format!("{:?}", cfg.hosts), "default_routes": cfg.default_routes, "default_ws": cfg.default_ws, "request_host": c.host, "target": c.target, "websocket": c.ws, "server_wrote": show(&out[..out.len().min(200)]), "expected_handler": want});
+    let ctx = |what: String, out: &[u8]| json!({"what": what, "hosts": format!("{:?}", cfg.hosts), "default_routes": cfg.default_routes, "default_ws": cfg.default_ws, "registration_kinds": format!("{:?}", cfg.kinds), "registered_on_app": cfg.direct, "request_line": c.line, "request_host": c.host, "target": c.target, "websocket": c.ws, "server_wrote": show(&out[..out.len().min(200)]), "expected_handler": want});
     let out = match served {
         Ok(o) => o,
         Err(()) => {
@@ -135,6 +171,15 @@ pub fn judge(s: &mut Stats, runtime: &str, cfg: &Cfg, c: &Case, served: Result<V
     }
 }
 
+/// all vectors in {0,1,2}^n
+pub fn kind_vectors(n: usize) -> Vec<Vec<u8>> {
+    let mut out: Vec<Vec<u8>> = vec![vec![]];
+    for _ in 0..n {
+        out = out.into_iter().flat_map(|v| (0..3u8).map(move |k| { let mut w = v.clone(); w.push(k); w })).collect();
+    }
+    out
+}
+
 pub fn seqs(menu: &[&str], max: usize) -> Vec<Vec<String>> {
     let mut out: Vec<Vec<String>> = vec![vec![]];
     let mut frontier = out.clone();
@@ -161,14 +206,14 @@ pub fn family(quick: bool) -> Vec<(Cfg, bool)> {
     let mut cfgs: Vec<(Cfg, bool)> = vec![];
     // default application only: all route lists of length <= 2 (3) over the full pattern menu, plain and websocket
     for l in seqs(&pats_full, if quick { 2 } else { 3 }) {
-        cfgs.push((Cfg { hosts: vec![], default_routes: l.clone(), default_ws: l.iter().rev().cloned().collect() }, true));
+        cfgs.push((Cfg { hosts: vec![], default_routes: l.clone(), default_ws: l.iter().rev().cloned().collect(), kinds: vec![], direct: false }, true));
     }
     // one host: host x routes(<=2) x default routes(<=2)
     let rl = seqs(&pats_small, 2);
     for h in hosts {
         for hr in &rl {
             for dr in &rl {
-                cfgs.push((Cfg { hosts: vec![(h.to_string(), hr.clone(), hr.clone())], default_routes: dr.clone(), default_ws: dr.clone() }, hr.len() + dr.len() <= 2));
+                cfgs.push((Cfg { hosts: vec![(h.to_string(), hr.clone(), hr.clone())], default_routes: dr.clone(), default_ws: dr.clone(), kinds: vec![], direct: false }, hr.len() + dr.len() <= 2));
             }
         }
     }
@@ -180,7 +225,7 @@ pub fn family(quick: bool) -> Vec<(Cfg, bool)> {
             for r1 in &rl2 {
                 for r2 in &rl2 {
                     for d in &dl2 {
-                        cfgs.push((Cfg { hosts: vec![(h1.to_string(), r1.clone(), r1.clone()), (h2.to_string(), r2.clone(), r2.clone())], default_routes: d.clone(), default_ws: d.clone() }, false));
+                        cfgs.push((Cfg { hosts: vec![(h1.to_string(), r1.clone(), r1.clone()), (h2.to_string(), r2.clone(), r2.clone())], default_routes: d.clone(), default_ws: d.clone(), kinds: vec![], direct: false }, false));
                     }
                 }
             }
@@ -190,7 +235,22 @@ pub fn family(quick: bool) -> Vec<(Cfg, bool)> {
     // multi-byte Host values of HOSTS_MB
     for h in ["bücher.test", "*.日本.test", "*ü*"] {
         for r in &seqs(&pats_small, 1) {
-            cfgs.push((Cfg { hosts: vec![(h.to_string(), r.clone(), r.clone()), ("*.test".into(), vec!["/*".into()], vec![])], default_routes: vec!["/a".into()], default_ws: vec!["/a".into()] }, true));
+            cfgs.push((Cfg { hosts: vec![(h.to_string(), r.clone(), r.clone()), ("*.test".into(), vec!["/*".into()], vec![])], default_routes: vec!["/a".into()], default_ws: vec!["/a".into()], kinds: vec![], direct: false }, true));
+        }
+    }
+    // registration API: the same route lists registered through every mix of with_route / with_stateless_route /
+    // with_path_aware_route, on the App itself and through a sub-app (registration order must hold across kinds)
+    for direct in [true, false] {
+        for l in seqs(&pats_small, if quick { 2 } else { 3 }) {
+            for kinds in kind_vectors(l.len()) {
+                if !direct && kinds.iter().all(|&k| k == 0) {
+                    continue; // already in the first family
+                }
+                cfgs.push((Cfg { hosts: vec![], default_routes: l.clone(), default_ws: if direct { l.clone() } else { vec![] }, kinds: kinds.clone(), direct }, direct && kinds.iter().all(|&k| k == 0)));
+                if l.len() == 2 {
+                    cfgs.push((Cfg { hosts: vec![("*.test".into(), l.clone(), vec![])], default_routes: l.iter().rev().cloned().collect(), default_ws: vec![], kinds, direct }, false));
+                }
+            }
         }
     }
     if !quick {
@@ -199,7 +259,7 @@ pub fn family(quick: bool) -> Vec<(Cfg, bool)> {
             for h2 in hosts {
                 for h3 in hosts {
                     for r in &seqs(&pats_small, 1) {
-                        cfgs.push((Cfg { hosts: vec![(h1.into(), r.clone(), vec![]), (h2.into(), vec!["/*".into()], vec![]), (h3.into(), r.clone(), vec![])], default_routes: vec!["/a".into()], default_ws: vec![] }, false));
+                        cfgs.push((Cfg { hosts: vec![(h1.into(), r.clone(), vec![]), (h2.into(), vec!["/*".into()], vec![]), (h3.into(), r.clone(), vec![])], default_routes: vec!["/a".into()], default_ws: vec![], kinds: vec![], direct: false }, false));
                     }
                 }
             }
